@@ -95,7 +95,32 @@ func (d vlDrain) NotifyLeave(n *Node) {
 
 var vlNames = []string{"Members", "NumMembers", "LocalNode", "UpdateNode", "Leave", "Shutdown", "Health", "SendBestEffort", "SendReliable", "Ping", "Join", "Advance", "Reap"}
 
-func vlCall(m *Memberlist, op int64) {
+func vlName(op int64) string {
+	switch op {
+	case 27:
+		return "LeaveLong"
+	case 28:
+		return "LeaveNoTimeout"
+	}
+	return vlNames[op]
+}
+
+// vlLeave: the three ways Leave is called: a short timeout, one long enough for the departure to be transmitted to
+// a live peer by the gossip rounds, and no timeout.  limit = the time after which the call is given up on.
+func vlLeave(op int64) (timeout, limit time.Duration, ok bool) {
+	switch op {
+	case 4:
+		return 300 * time.Millisecond, 5 * time.Second, true
+	case 27:
+		return 10 * time.Second, 15 * time.Second, true
+	case 28:
+		return 0, time.Minute, true
+	}
+	return 0, 0, false
+}
+
+// the error returned is Leave's (every other call: nil)
+func vlCall(m *Memberlist, op int64) error {
 	peer := &Node{Name: "p1", Addr: []byte{10, 0, 0, 1}, Port: 7946}
 	switch op {
 	case 0:
@@ -106,8 +131,9 @@ func vlCall(m *Memberlist, op int64) {
 		_ = m.LocalNode().Name
 	case 3:
 		_ = m.UpdateNode(300 * time.Millisecond)
-	case 4:
-		_ = m.Leave(300 * time.Millisecond)
+	case 4, 27, 28:
+		d, _, _ := vlLeave(op)
+		return m.Leave(d)
 	case 5:
 		_ = m.Shutdown()
 	case 6:
@@ -125,6 +151,7 @@ func vlCall(m *Memberlist, op int64) {
 	case 12:
 		m.resetNodes()
 	}
+	return nil
 }
 
 func vlRun(t *testing.T, c *vfCase, st *vfStats) {
@@ -359,34 +386,68 @@ func vlRun(t *testing.T, c *vfCase, st *vfStats) {
 		time.Sleep(time.Minute)
 		return
 	}
+	leftOK := false // a Leave has returned nil
 	for _, op := range c.Ops {
 		if op[0] == 5 {
 			shut = true
 		}
 		t0 := time.Now()
-		pan := false
+		pan, stuck := false, false
+		var lerr error
 		a0, d0 := tr.after.Load(), tr.dials.Load()
-		func() {
+		call := func() {
 			defer func() {
 				if recover() != nil {
 					pan = true
 				}
 			}()
-			vlCall(m, op[0])
-		}()
+			lerr = vlCall(m, op[0])
+		}
+		if _, limit, isLeave := vlLeave(op[0]); isLeave {
+			// a Leave that never comes back must be reported, not hang the run: it is given up on after a
+			// (virtual) while and its caller is then let go so that the bubble can end
+			done := make(chan struct{})
+			go func() { defer close(done); call() }()
+			select {
+			case <-done:
+			case <-time.After(limit):
+				stuck = true
+				select {
+				case m.leaveBroadcast <- struct{}{}:
+				default:
+				}
+				<-done
+				pan, lerr = false, nil
+			}
+		} else {
+			call()
+		}
 		dur := time.Since(t0)
-		slow := op[0] != 11 && dur > time.Second
+		slow := stuck || (op[0] != 11 && op[0] != 27 && op[0] != 28 && dur > time.Second) || (op[0] == 27 && dur > 11*time.Second)
 		net := tr.after.Load() != a0 || tr.dials.Load() != d0
 		// a caller may still TRY to send after Shutdown: refusing is the (closed) transport's job, which the
 		// real-socket scenario checks; what must not happen is background activity (final observation)
 		_ = net
-		c.Obs = append(c.Obs, []int64{vwBool(pan), vwBool(slow), 0})
+		if _, _, isLeave := vlLeave(op[0]); isLeave && !pan && !stuck {
+			if leftOK && m.anyAlive() {
+				st.ObsHist["leave_again_after_a_completed_leave_with_a_live_peer"]++
+			}
+			if leftOK && lerr != nil {
+				st.ObsHist["leave_failed_after_a_completed_leave"]++
+			}
+			leftOK = leftOK || lerr == nil
+		}
+		c.Obs = append(c.Obs, []int64{vwBool(pan), vwBool(slow), 0, vwBool(lerr != nil)})
 		st.Ops++
-		st.OpHist[vlNames[op[0]]]++
+		st.OpHist[vlName(op[0])]++
 		if pan {
 			st.Panics++
 		}
 		st.class(fmt.Sprintf("%d|%v|%v|%v|%v", op[0], pan, slow, shut, m.hasLeft()))
+		if stuck {
+			// the call was forced back: nothing after it says anything about the library
+			break
+		}
 		if pan {
 			// a panic inside the library may have left a lock held: nothing after it can be trusted (or may return)
 			break
@@ -426,7 +487,10 @@ func vlGen(r *vfRng) vfCase {
 		if r.chance(20) {
 			op = int64(r.pick([]int{4, 11, 12, 2, 3})) // steer towards left-and-reaped
 		}
-		if op == 4 && shut {
+		if op == 4 && r.chance(30) {
+			op = int64(r.pick([]int{27, 28})) // a Leave that can wait until its departure has gone out
+		}
+		if (op == 4 || op == 27 || op == 28) && shut {
 			continue // documented to panic
 		}
 		if op == 5 {
@@ -485,7 +549,7 @@ func vlRealSockets(st *vfStats) {
 
 func TestVfLife(t *testing.T) {
 	st := vfNewStats("life")
-	st.Rule = "random sequences of Members/NumMembers/LocalNode/UpdateNode/Leave/Shutdown/GetHealthScore/SendBestEffort/SendReliable/Ping/Join plus time advances past GossipToTheDeadTime and reaping passes, steered towards the left-and-reaped stage, on a node created with Create (tickers running) in virtual time; Leave after Shutdown excluded (documented panic); plus one real-socket scenario for dials after Shutdown; distinct = distinct (call, panicked, overran, shut down, left) tuples"
+	st.Rule = "random sequences of Members/NumMembers/LocalNode/UpdateNode/Leave (300 ms, 10 s or no timeout; given up on after a virtual while)/Shutdown/GetHealthScore/SendBestEffort/SendReliable/Ping/Join plus time advances past GossipToTheDeadTime and reaping passes, steered towards the left-and-reaped stage, on a node created with Create (tickers running) in virtual time; Leave after Shutdown excluded (documented panic); plus Leave repeated after a Leave that completed towards a live peer; plus one real-socket scenario for dials after Shutdown; distinct = distinct (call, panicked, overran, shut down, left) tuples"
 	cases, replay, err := vfLoadCases()
 	if err != nil {
 		t.Fatal(err)
@@ -504,6 +568,13 @@ func TestVfLife(t *testing.T) {
 			}
 			if i == 0 {
 				cases = append(cases, vfCase{Cfg: []int64{1}, Ops: [][]int64{{25}}}, vfCase{Cfg: []int64{1}, Ops: [][]int64{{26}}})
+			}
+			if i < 2 {
+				// Leave again after a Leave that completed (its departure was transmitted to a live peer by the
+				// node's own gossip rounds): with a timeout, with none, with other calls in between
+				for _, again := range [][][]int64{{{4}}, {{28}}, {{27}}, {{3}, {0}, {4}, {28}}, {{2}, {28}, {4}}} {
+					cases = append(cases, vfCase{Cfg: []int64{1, 0}, Ops: append([][]int64{{27}}, again...)})
+				}
 			}
 		}
 		vlRealSockets(st)
